@@ -164,8 +164,23 @@ def r2_make_xarray_grid(ctx, rule="R2"):
                             ok = True
                         elif Q.is_reversed(v[1][0], dims):
                             ok = False
+                    why = "extra coordinates use reversed dims"
+                    if ok is None and v[0] == "tuple" and len(v[1]) == 2 and v[1][0][0] in ("tuple", "list") and all(is_const(x) for x in v[1][0][1]):
+                        ok, why = False, "extra coordinates are attached to the fixed dims %s instead of the dims argument: with custom dims they do not sit on the grid's dimensions" % show(v[1][0])
                     ctx.check(rule, qn + "|extra-coordinate|(dims, value)", ok, "each extra coordinate is (dims, array), name and array from the same zip step",
-                              bad="extra coordinates use reversed dims", fn=qn)
+                              bad=why, fn=qn)
+                elif k is None and v[0] == "comp" and v[2][0] == "tuple" and len(v[2][1]) == 2 and v[2][1][1][0] == "tuple" and len(v[2][1][1][1]) == 2:
+                    # the same entries added through coords.update({name: (dims, array) for ...})
+                    n_ex += 1
+                    name_t, (d_t, val_t) = v[2][1][0], v[2][1][1][1]
+                    ok, why = None, "extra coordinates use reversed dims"
+                    if d_t == dims and name_t[0] == "elem" and val_t[0] == "elem" and name_t[2] == val_t[2]:
+                        ok = True
+                    elif Q.is_reversed(d_t, dims):
+                        ok = False
+                    elif d_t[0] in ("tuple", "list") and all(is_const(x) for x in d_t[1]):
+                        ok, why = False, "extra coordinates are attached to the fixed dims %s instead of the dims argument: with custom dims they do not sit on the grid's dimensions" % show(d_t)
+                    ctx.check(rule, qn + "|extra-coordinate|(dims, value)", ok, "each extra coordinate is (dims, array), name and array from the same zip step", bad=why, fn=qn)
     if not n_dv or not n_ex:
         ctx.add(rule, qn + "|coverage", "UNDECIDED", "data-variable / extra-coordinate constructions not found (%d, %d)" % (n_dv, n_ex), fn=qn)
     # validation of names precedes their use
@@ -190,6 +205,17 @@ def r3_mesh(ctx, rule="R3"):
     qn = "verde.utils.check_meshgrid"
     n = sum(1 for p in ctx.paths(qn) if p.exit == "raise")
     ctx.check(rule, qn + "|raises-both-directions", True if n >= 2 else False, "non-meshgrid easting and northing each raise", bad="only %d raising path(s) in check_meshgrid" % n, fn=qn)
+    # must-pass-through: the ONLY way to return normally is to have passed both tests (an early return for "trivial" shapes accepts
+    # one-row / one-column arrays whose other coordinate varies, and meshgrid_to_1d then collapses it to its first value)
+    east, north = Q.sub(("param", "coordinates"), 0), Q.sub(("param", "coordinates"), 1)
+
+    def tested(p, arr):
+        return any(c[0] == "call" and callee(c) in ("numpy.allclose", "numpy.array_equal", "numpy.all") and v and any(x == arr for x in walk(c)) for c, v in p.conds)
+    normal = [p for p in ctx.paths(qn) if p.normal]
+    bad = [p for p in normal if not (tested(p, east) and tested(p, north))]
+    ctx.check(rule, qn + "|every-accepting-path-tests-both", False if bad else (True if normal else None), "every path that accepts the input has compared easting along axis 0 and northing along axis 1",
+              bad="a path returns without testing %s: such input is accepted as a meshgrid unchecked" % ("easting and northing" if bad and not tested(bad[0], east) and not tested(bad[0], north) else "one of the two arrays"),
+              fn=qn, line=bad[0].line if bad else None)
 
 
 def r4_profile(ctx):
